@@ -54,7 +54,13 @@ def run_for_property(prop, src_root='/repo'):
     jobs = []
     ndir = os.path.join(VERIF, 'neutral')
     sdir = os.path.join(VERIF, 'seeded')
+    unsupported = {}
+    uf = os.path.join(ndir, 'UNSUPPORTED.json')
+    if os.path.exists(uf):
+        unsupported = json.load(open(uf))
     for sid in sorted(os.listdir(ndir)):
+        if sid in unsupported:
+            continue        # documented limitation (DESIGN.md section 7.2)
         if os.path.isfile(os.path.join(ndir, sid, 'patch.diff')):
             jobs.append((src_root, prop, 'neutral', sid))
     expected = {}
@@ -90,6 +96,7 @@ def run_for_property(prop, src_root='/repo'):
                                 '({})'.format(sid, status))
     extra = {'corpus': {
         'neutral_refactorings_silent': silent,
+        'neutral_refactorings_unsupported': sorted(unsupported),
         'seeded_breakages_reported': detected,
         'stale_patches_skipped': stale}}
     if problems:
